@@ -133,7 +133,7 @@ def _wexpand(chunk):
             if not hist:
                 rec['sviol'] = prop.check_state(state, seedrec, hist)
             signal.setitimer(signal.ITIMER_REAL, 0)
-            for op in prop.menu(state):
+            for op in (prop.menu_at(state, hist) if hasattr(prop, 'menu_at') else prop.menu(state)):
                 signal.setitimer(signal.ITIMER_REAL, prop.HORIZON)
                 core.restore_globals()
                 try:
